@@ -12,7 +12,7 @@ from engine import shapes
 from harness import common
 from harness.common import fail, keq, klt
 from harness import keys as keys_mod
-from harness.keys import K
+from harness.keys import K, PV
 
 _CL = {}
 
@@ -148,7 +148,7 @@ def _merge_case(P, a, sel, asnone):
         lst = []
         for i in range(n):
             k = K(a['%s%d' % (pk, i)], i, g + 1)
-            v = None if is_set else K(a['%s%d' % (pv, i)], None, 9)
+            v = None if is_set else (PV if P.get('values') == 'partial' else K)(a['%s%d' % (pv, i)], None, 9)
             lst.append((k, v))
         lists.append(lst)
     old, com, new = lists
